@@ -27,7 +27,7 @@ from pathlib import Path
 from ..loader import repo_root
 
 V = Path(__file__).resolve().parent.parent.parent
-PRESERVING = ['reformat', 'rename-locals', 'augassign', 'flip-compare', 'invert-if', 'noise']
+PRESERVING = ['reformat', 'rename-locals', 'augassign', 'flip-compare', 'invert-if', 'noise', 'kwargs']
 PY = '/venv/bin/python'
 
 
